@@ -56,15 +56,16 @@ fn max_one_either_side(
     token_index: usize,
     formatted_tokens: &mut FormattedTokens<'_>,
 ) -> (Option<u16>, Option<u16>) {
-    // A line break separates two tokens just like a space does
-    let separation = |data: &FormattingData| data.spaces_before.max(data.newlines_before).min(1);
     (
+        // The space before this token has already been decided by the previous token, if it had an opinion
         formatted_tokens
             .get_formatting_data(token_index)
-            .map(separation),
+            .map(|data| data.spaces_before.min(1)),
+        // The gap to the next token is still as it was in the source, where a line break separates two tokens
+        // just like a space does (and is followed by the indentation of the next line, not by separating spaces)
         formatted_tokens
             .get_formatting_data(token_index + 1)
-            .map(separation),
+            .map(|data| data.spaces_before.max(data.newlines_before).min(1)),
     )
 }
 
